@@ -14,6 +14,12 @@ RULE = RULE + (
 )
 
 
+def simchecks_ref_pto(conn):
+    from vlib import simchecks
+
+    return simchecks.ref_pto(conn)
+
+
 def first_datagrams_case(ctx, case):
     """whatever the first datagrams are, the connection names a finite deadline and idles out"""
     from props import C05
@@ -73,7 +79,7 @@ def first_datagrams_case(ctx, case):
                 ctx.case(("first", repr(case)), nontrivial=False, classes=cls + ["first:nothing-fed"])
                 return
             # silence: only timers from now on
-            budget = max(idle, 3 * sut._loss.get_probe_timeout()) + 1.0
+            budget = max(idle, 3 * simchecks_ref_pto(sut)) + 1.0
             for _ in range(400):
                 if terminated:
                     break
